@@ -733,7 +733,9 @@ func (o Bytes) BinaryOp(tok token.Token, right Object) (Object, error) {
 	case Bytes:
 		switch tok {
 		case token.Add:
-			return append(o, v...), nil
+			// a new value: the operands may share spare capacity with others
+			ret := make(Bytes, 0, len(o)+len(v))
+			return append(append(ret, o...), v...), nil
 		case token.Less:
 			return Bool(bytes.Compare(o, v) == -1), nil
 		case token.LessEq:
@@ -748,7 +750,9 @@ func (o Bytes) BinaryOp(tok token.Token, right Object) (Object, error) {
 	case String:
 		switch tok {
 		case token.Add:
-			return append(o, v...), nil
+			// a new value: the operands may share spare capacity with others
+			ret := make(Bytes, 0, len(o)+len(v))
+			return append(append(ret, o...), v...), nil
 		case token.Less:
 			return Bool(string(o) < string(v)), nil
 		case token.LessEq:
